@@ -5,11 +5,11 @@ package main
 
 import (
 	"fmt"
-	"os"
 	"go/ast"
 	"go/token"
 	"go/types"
 	"math/big"
+	"os"
 	"sort"
 	"strings"
 
@@ -41,14 +41,14 @@ type loopAct struct {
 	ctr   *Term // counter at start of this iteration
 	info  *loopInfo
 	// state for variant / candidate checks
-	headVals map[*ssa.Phi]Value
-	entVals  map[*ssa.Phi]Value
-	cands    []loopCand
-	variants []variantCand
-	varGoals [][]*Term // per variant candidate, per back edge
-	varHead  []*Term
-	frame    *Frame
-	invs     []*LoopInv
+	headVals  map[*ssa.Phi]Value
+	entVals   map[*ssa.Phi]Value
+	cands     []loopCand
+	variants  []variantCand
+	varGoals  [][]*Term // per variant candidate, per back edge
+	varHead   []*Term
+	frame     *Frame
+	invs      []*LoopInv
 	backsSeen int
 }
 
@@ -58,59 +58,76 @@ type loopCand struct {
 }
 
 type variantCand struct {
-	name string
-	eval func(get func(*ssa.Phi) Value, f *Frame) *Term
+	name   string
+	eval   func(get func(*ssa.Phi) Value, f *Frame) *Term
+	atHead bool // depends on memory: its head value must be captured at the loop head
 }
 
 type RunCfg struct {
-	disabled   map[string]bool            // loopKey|candName dropped by Houdini
-	modKinds   map[string]map[string]bool // loopKey -> kinds written in the loop
-	fullHavoc  map[string]bool            // loopKey|kind : writes reach pre-loop objects
-	unroll     map[string]int             // loopKey -> K (bounded stand-in / full unroll)
-	unwindAssert map[string]bool          // loopKey: prove that K iterations suffice (complete)
-	strict     bool                       // strict (len, not cap) bounds on input-derived slices
-	maxDepth   int
-	useSummary map[string]bool // functions whose contract is used instead of the body
+	disabled     map[string]bool            // loopKey|candName dropped by Houdini
+	modKinds     map[string]map[string]bool // loopKey -> kinds written in the loop
+	fullHavoc    map[string]bool            // loopKey|kind : writes reach pre-loop objects
+	unroll       map[string]int             // loopKey -> K (bounded stand-in / full unroll)
+	unwindAssert map[string]bool            // loopKey: prove that K iterations suffice (complete)
+	unrollAll    int                        // != 0: every loop without an entry in unroll is unrolled this often (-1: zero times)
+	fnScope      string                     // non-empty: record the write set of the verified function under this key
+	paramWrites  map[string]string          // "<param index>|<suffix>" -> kind name (frame computation)
+	strict       bool                       // strict (len, not cap) bounds on input-derived slices
+	maxDepth     int
+	useSummary   map[string]bool // functions whose contract is used instead of the body
 }
 
 func newRunCfg() *RunCfg {
 	return &RunCfg{disabled: map[string]bool{}, modKinds: map[string]map[string]bool{}, fullHavoc: map[string]bool{},
-		unroll: map[string]int{}, unwindAssert: map[string]bool{}, strict: true, maxDepth: 14, useSummary: map[string]bool{}}
+		unroll: map[string]int{}, unwindAssert: map[string]bool{}, paramWrites: map[string]string{}, strict: true, maxDepth: 14, useSummary: map[string]bool{}}
 }
 
 type Exec struct {
-	P        *Program
-	mem      *Mem
-	hyps     []*Term
-	hypSeen  map[int]bool
-	obls     []*Obligation
-	ctrBase  *Term
-	ctrOff   int64
-	boxes    map[int]Value
-	noWF     bool
-	loops    []*loopAct
-	unsup    []string
-	inputArr map[int]bool
-	cfg      *RunCfg
-	names    map[string]int
-	depth    int
-	fnStack  []string
-	quant    []string // quantified axioms (SMT text) for the Bytes layer
-	ghost    map[string]Value
-	varHooks []func() *Term // extra variant candidates (reader positions)
-	inFuncs  map[string]bool
-	notes    []string
-	covers   []*Obligation
-	skolems  []*Term
-	bounded  []string
-	randDraws []randDraw
-	bytesEqHook func(a, b SliceV) *Term
-	randInts []*Term
+	P             *Program
+	mem           *Mem
+	hyps          []*Term
+	hypSeen       map[int]bool
+	obls          []*Obligation
+	ctrBase       *Term
+	ctrOff        int64
+	boxes         map[int]Value
+	noWF          bool
+	loops         []*loopAct
+	unsup         []string
+	inputArr      map[int]bool
+	cfg           *RunCfg
+	names         map[string]int
+	depth         int
+	fnStack       []string
+	quant         []string // quantified axioms (SMT text) for the Bytes layer
+	ghost         map[string]Value
+	varHooks      []func() *Term // extra variant candidates (reader positions)
+	inFuncs       map[string]bool
+	notes         []string
+	covers        []*Obligation
+	skolems       []*Term
+	bounded       []string
+	randDraws     []randDraw
+	bytesEqHook   func(a, b SliceV) *Term
+	randInts      []*Term
+	cur           *Term // reach condition of the instruction being executed
+	modes         []*contractMode
+	summariesUsed map[string]bool
+	bindAny       bool
+	specDepth     int
+	scopeParams   []scopeParam
+	hmacNewHook   func(reach, ref, alg *Term, key SliceV)
+	hashResetHook func(reach, ref *Term)
+	hashWriteHook func(reach, ref *Term, p SliceV)
+	hashSumHook   func(reach, ref, size *Term) *Term
+	aesNewHook    func(reach, ref *Term, key SliceV)
+	cbcNewHook    func(reach, ref, block *Term, iv SliceV, dir int64)
+	cbcCryptHook  func(reach, ref *Term, src SliceV) *Term
 }
 
 func newExec(P *Program, cfg *RunCfg) *Exec {
 	ex := &Exec{P: P, hypSeen: map[int]bool{}, boxes: map[int]Value{}, inputArr: map[int]bool{}, cfg: cfg,
-		names: map[string]int{}, ghost: map[string]Value{}, inFuncs: map[string]bool{}}
+		names: map[string]int{}, ghost: map[string]Value{}, inFuncs: map[string]bool{}, summariesUsed: map[string]bool{}}
 	ex.mem = newMem(ex)
 	ex.ctrBase = Int(0)
 	return ex
@@ -126,6 +143,9 @@ func (ex *Exec) unsupported(msg string) {
 }
 
 func (ex *Exec) assumeGlobal(t *Term) {
+	if containsBound(t) {
+		t = Forall(t) // a fact about a term under a quantifier holds for every instance
+	}
 	if t.IsTrue() || ex.hypSeen[t.id] {
 		return
 	}
@@ -151,7 +171,17 @@ func (ex *Exec) curFn() string {
 
 // oblige records a proof obligation `reach => cond`; once recorded it is assumed.
 func (ex *Exec) oblige(class, what string, reach, cond *Term) *Obligation {
+	if ex.specDepth > 0 {
+		return nil // inside a specification expression
+	}
 	goal := Implies(reach, cond)
+	if containsBound(goal) {
+		if m := ex.topMode(); m != nil && m.use && containsBound(cond) {
+			return nil // mentions a quantified variable: part of a specification, not of the code
+		}
+		ex.unsupported("quantified variable escaped into the obligation " + class + ":" + what)
+		return nil
+	}
 	base := ex.curFn() + "#" + class + ":" + what
 	ex.names[base]++
 	name := base
@@ -170,6 +200,20 @@ func (ex *Exec) oblige(class, what string, reach, cond *Term) *Obligation {
 
 func (ex *Exec) noteWrite(k *kindInfo, guard, ref, n *Term) {
 	for _, l := range ex.loops {
+		if l.key == ex.cfg.fnScope && l.info == nil {
+			// write through a pointer parameter of the function whose frame is being computed
+			rel := false
+			for i, sp := range ex.scopeParams {
+				if sp.ref == ref && strings.HasPrefix(k.name, sp.prefix) {
+					pw := ex.cfg.paramWrites
+					pw[fmt.Sprintf("%d|%s", i, k.name[len(sp.prefix):])] = k.name
+					rel = true
+				}
+			}
+			if rel {
+				continue
+			}
+		}
 		mk := ex.cfg.modKinds[l.key]
 		if mk == nil {
 			mk = map[string]bool{}
@@ -609,9 +653,25 @@ func (ex *Exec) loopHead(f *Frame, b *ssa.BasicBlock, lp *loopInfo, entry *Term)
 			act.entVals[phi] = ex.phiValue(f, b, phi, true)
 		}
 	}
-	// mandatory invariants hold on entry
+	// invariants hold on entry (checked in the pre-loop memory state)
 	act.invs = ex.P.loopInvs[key]
 	getEnt := func(p *ssa.Phi) Value { return act.entVals[p] }
+	act.cands = ex.loopCandidates(f, act, phis)
+	for _, cd := range act.cands {
+		ck := key + "|" + cd.name
+		if ex.cfg.disabled[ck] {
+			continue
+		}
+		g := Implies(entry, cd.eval(getEnt))
+		o := &Obligation{Name: "cand-entry:" + ck, Class: "cand", Fn: ex.curFn(), Goal: g, NHyps: len(ex.hyps), Optional: true, CandKey: ck}
+		if g.IsTrue() {
+			o.Status, o.Solver = "discharged", "syntactic"
+		}
+		ex.obls = append(ex.obls, o)
+	}
+	for _, inv := range act.invs {
+		ex.checkInv(f, act, inv, "inv-entry", entry, getEnt)
+	}
 	// new iteration counter
 	c := Fresh("ctr."+key, SInt, act.water.lo, nil)
 	ex.assumeGlobal(Ge(c, act.water))
@@ -654,24 +714,6 @@ func (ex *Exec) loopHead(f *Frame, b *ssa.BasicBlock, lp *loopInfo, entry *Term)
 		f.vals[phi] = hv
 	}
 	getHead := func(p *ssa.Phi) Value { return act.headVals[p] }
-	// candidates
-	act.cands = ex.loopCandidates(f, act, phis)
-	for _, cd := range act.cands {
-		ck := key + "|" + cd.name
-		if ex.cfg.disabled[ck] {
-			continue
-		}
-		// entry check (optional)
-		g := Implies(entry, cd.eval(getEnt))
-		o := &Obligation{Name: "cand-entry:" + ck, Class: "cand", Fn: ex.curFn(), Goal: g, NHyps: len(ex.hyps), Optional: true, CandKey: ck}
-		if g.IsTrue() {
-			o.Status, o.Solver = "discharged", "syntactic"
-		}
-		ex.obls = append(ex.obls, o)
-	}
-	for _, inv := range act.invs {
-		ex.checkInv(f, act, inv, "inv-entry", entry, getEnt)
-	}
 	for _, cd := range act.cands {
 		if !ex.cfg.disabled[key+"|"+cd.name] {
 			ex.assume(entry, cd.eval(getHead))
@@ -684,7 +726,11 @@ func (ex *Exec) loopHead(f *Frame, b *ssa.BasicBlock, lp *loopInfo, entry *Term)
 	act.varGoals = make([][]*Term, len(act.variants))
 	act.varHead = nil
 	for _, vc := range act.variants {
-		act.varHead = append(act.varHead, vc.eval(getHead, f))
+		if vc.atHead {
+			act.varHead = append(act.varHead, vc.eval(getHead, f))
+		} else {
+			act.varHead = append(act.varHead, nil)
+		}
 	}
 }
 
@@ -719,6 +765,9 @@ func (ex *Exec) backEdge(f *Frame, b, h *ssa.BasicBlock, cond *Term) {
 	}
 	for i, vc := range act.variants {
 		vh := act.varHead[i]
+		if vh == nil {
+			vh = vc.eval(func(p *ssa.Phi) Value { return act.headVals[p] }, f)
+		}
 		act.varGoals[i] = append(act.varGoals[i], Implies(cond, And(Lt(vc.evalNext(ex, f, getNext), vh), Ge(vh, Int(0)))))
 	}
 	act.backsSeen++
@@ -743,6 +792,53 @@ func (ex *Exec) finishLoop(f *Frame, act *loopAct) {
 	ex.obls = append(ex.obls, o)
 }
 
+// comparedBounds lists loop-invariant values that p (or p plus a constant) is
+// compared with inside the loop.
+func comparedBounds(p *ssa.Phi, li *loopInfo) []ssa.Value {
+	derived := map[ssa.Value]bool{p: true}
+	for b := range li.body {
+		for _, ins := range b.Instrs {
+			if bo, ok := ins.(*ssa.BinOp); ok && (bo.Op == token.ADD || bo.Op == token.SUB) {
+				if _, isC := bo.Y.(*ssa.Const); isC && bo.X == ssa.Value(p) {
+					derived[bo] = true
+				}
+			}
+		}
+	}
+	var out []ssa.Value
+	seen := map[ssa.Value]bool{}
+	for b := range li.body {
+		for _, ins := range b.Instrs {
+			bo, ok := ins.(*ssa.BinOp)
+			if !ok {
+				continue
+			}
+			switch bo.Op {
+			case token.LSS, token.LEQ, token.GTR, token.GEQ, token.NEQ:
+			default:
+				continue
+			}
+			var other ssa.Value
+			if derived[bo.X] {
+				other = bo.Y
+			} else if derived[bo.Y] {
+				other = bo.X
+			} else {
+				continue
+			}
+			if _, ok := intKindOf(other.Type()); !ok {
+				continue
+			}
+			if !loopInvariant(other, li, 0) || seen[other] {
+				continue
+			}
+			seen[other] = true
+			out = append(out, other)
+		}
+	}
+	return out
+}
+
 // loopCandidates proposes invariant conjuncts from templates (Houdini).
 func (ex *Exec) loopCandidates(f *Frame, act *loopAct, phis []*ssa.Phi) []loopCand {
 	var out []loopCand
@@ -763,6 +859,25 @@ func (ex *Exec) loopCandidates(f *Frame, act *loopAct, phis []*ssa.Phi) []loopCa
 			}
 			out = append(out, loopCand{nm + ">=init", func(get func(*ssa.Phi) Value) *Term { return Ge(get(p).(*Term), e) }})
 			out = append(out, loopCand{nm + "<=init", func(get func(*ssa.Phi) Value) *Term { return Le(get(p).(*Term), e) }})
+			for _, ov := range comparedBounds(p, act.info) {
+				o := ov
+				if oi, ok := o.(ssa.Instruction); ok && act.info.body[oi.Block()] {
+					continue // recomputed in the loop: not available at the head
+				}
+				out = append(out, loopCand{nm + "<" + o.Name(), func(get func(*ssa.Phi) Value) *Term { return Lt(get(p).(*Term), ex.val(f, o).(*Term)) }})
+				out = append(out, loopCand{nm + "<=" + o.Name(), func(get func(*ssa.Phi) Value) *Term { return Le(get(p).(*Term), ex.val(f, o).(*Term)) }})
+			}
+			// a pointer assigned in the loop is non-nil once the counter has moved
+			for _, q := range phis {
+				pq := q
+				if _, isPtr := pq.Type().Underlying().(*types.Pointer); !isPtr {
+					continue
+				}
+				qn := pq.Comment
+				out = append(out, loopCand{qn + "!=nil-after-first:" + nm, func(get func(*ssa.Phi) Value) *Term {
+					return Or(Eq(get(p).(*Term), e), Ne(ex.ptr(get(pq)).Ref, Int(0)))
+				}})
+			}
 		case SliceV:
 			water, ctr := act.water, act.ctr
 			out = append(out, loopCand{nm + ":suffix-of-init", func(get func(*ssa.Phi) Value) *Term {
@@ -811,7 +926,9 @@ func loopInvariant(v ssa.Value, li *loopInfo, depth int) bool {
 	return false
 }
 
-func (vc variantCand) evalNext(ex *Exec, f *Frame, get func(*ssa.Phi) Value) *Term { return vc.eval(get, f) }
+func (vc variantCand) evalNext(ex *Exec, f *Frame, get func(*ssa.Phi) Value) *Term {
+	return vc.eval(get, f)
+}
 
 func (ex *Exec) variantCandidates(f *Frame, act *loopAct, phis []*ssa.Phi) []variantCand {
 	var out []variantCand
@@ -823,46 +940,24 @@ func (ex *Exec) variantCandidates(f *Frame, act *loopAct, phis []*ssa.Phi) []var
 		}
 		switch act.headVals[p].(type) {
 		case SliceV:
-			out = append(out, variantCand{"len(" + nm + ")", func(get func(*ssa.Phi) Value, _ *Frame) *Term { return get(p).(SliceV).Len }})
+			out = append(out, variantCand{"len(" + nm + ")", func(get func(*ssa.Phi) Value, _ *Frame) *Term { return get(p).(SliceV).Len }, false})
 		case *Term:
 			if _, ok := intKindOf(p.Type()); !ok {
 				continue
 			}
-			out = append(out, variantCand{nm, func(get func(*ssa.Phi) Value, _ *Frame) *Term { return get(p).(*Term) }})
-			// bounds it is compared with inside the loop
-			for b := range act.info.body {
-				for _, ins := range b.Instrs {
-					bo, ok := ins.(*ssa.BinOp)
-					if !ok {
-						continue
-					}
-					var other ssa.Value
-					if bo.X == ssa.Value(p) {
-						other = bo.Y
-					} else if bo.Y == ssa.Value(p) {
-						other = bo.X
-					} else {
-						continue
-					}
-					switch bo.Op {
-					case token.LSS, token.LEQ, token.GTR, token.GEQ, token.NEQ:
-					default:
-						continue
-					}
-					if !loopInvariant(other, act.info, 0) {
-						continue
-					}
-					ov := other
-					out = append(out, variantCand{ov.Name() + "-" + nm, func(get func(*ssa.Phi) Value, fr *Frame) *Term {
-						return Sub(ex.val(fr, ov).(*Term), get(p).(*Term))
-					}})
-				}
+			out = append(out, variantCand{nm, func(get func(*ssa.Phi) Value, _ *Frame) *Term { return get(p).(*Term) }, false})
+			// bounds it (or it plus a constant) is compared with inside the loop
+			for _, other := range comparedBounds(p, act.info) {
+				ov := other
+				out = append(out, variantCand{ov.Name() + "-" + nm, func(get func(*ssa.Phi) Value, fr *Frame) *Term {
+					return Sub(ex.val(fr, ov).(*Term), get(p).(*Term))
+				}, false})
 			}
 		}
 	}
 	for i, h := range ex.varHooks {
 		hk := h
-		out = append(out, variantCand{fmt.Sprintf("reader-remaining-%d", i), func(func(*ssa.Phi) Value, *Frame) *Term { return hk() }})
+		out = append(out, variantCand{fmt.Sprintf("reader-remaining-%d", i), func(func(*ssa.Phi) Value, *Frame) *Term { return hk() }, true})
 	}
 	return out
 }
@@ -875,6 +970,7 @@ func (ex *Exec) exprText(pos token.Pos, kind string) string {
 
 func (ex *Exec) execInstr(f *Frame, b *ssa.BasicBlock, ins ssa.Instruction) {
 	reach := f.cur
+	ex.cur = reach
 	switch x := ins.(type) {
 	case *ssa.DebugRef:
 	case *ssa.Alloc:
@@ -925,6 +1021,7 @@ func (ex *Exec) execInstr(f *Frame, b *ssa.BasicBlock, ins ssa.Instruction) {
 	case *ssa.Call:
 		v, ok := ex.doCall(f, x)
 		f.cur = And(f.cur, ok)
+		ex.cur = f.cur
 		if x.Type() != nil {
 			f.vals[x] = v
 		}
@@ -1712,6 +1809,15 @@ func (ex *Exec) callStatic(f *Frame, call *ssa.Call, fn *ssa.Function, args []Va
 		return h(ex, f, call, args, reach)
 	}
 	if fn.Pkg != nil && ex.P.isRepoPkg(fn.Pkg.Pkg.Path()) || fn.Parent() != nil {
+		if m := ex.topMode(); m != nil && m.target == fnName(fn) {
+			if m.use {
+				return ex.havocCall(fn, args, reach)
+			}
+			// the contract of fn is being verified: its real body
+			ex.modes = append(ex.modes, &contractMode{})
+			defer func() { ex.modes = ex.modes[:len(ex.modes)-1] }()
+			return ex.callFn(fn, args, reach)
+		}
 		if sm := ex.P.summaries[fnName(fn)]; sm != nil && ex.cfg.useSummary[fnName(fn)] {
 			return ex.applySummary(f, call, fn, sm, args, reach)
 		}
@@ -1799,7 +1905,14 @@ func (ex *Exec) runBlocks(f *Frame, order []*ssa.BasicBlock, entry *Term) {
 			continue
 		}
 		if lp, ok := f.info.loops[b]; ok && f.unr[lp] == nil {
-			if k, ok := ex.cfg.unroll[ex.loopKey(f, lp)]; ok && k > 0 {
+			k, ok := ex.cfg.unroll[ex.loopKey(f, lp)]
+			if !ok && ex.cfg.unrollAll != 0 {
+				k, ok = ex.cfg.unrollAll, true
+				if k < 0 {
+					k = 0
+				}
+			}
+			if ok {
 				ex.unrollLoop(f, lp, k, entry)
 				continue
 			}
@@ -1970,4 +2083,9 @@ func (ex *Exec) unrollLoop(f *Frame, lp *loopInfo, k int, entry *Term) {
 		f.vals[v] = mv
 	}
 	delete(f.unr, lp)
+}
+
+type scopeParam struct {
+	ref    *Term
+	prefix string
 }
